@@ -57,12 +57,14 @@ class SuperProxy:
 class ObjVal:
     """Instance of a repository class with concrete shape."""
     _n = [0]
+    _by_ident = {}      # boxed identity -> object (to unbox containers)
 
     def __init__(self, cls):
         self.cls = cls
         self.fields = {}
         ObjVal._n[0] += 1
         self.ident = '%s#%d' % (cls.name, ObjVal._n[0])
+        ObjVal._by_ident[self.ident] = self
 
     def as_val(self):
         return S.named_const(self.ident)
@@ -609,6 +611,22 @@ class World:
         raise Unsupported('del item of %r' % (obj,))
 
     def unpack_model(self, v, n, it, node):
+        if isinstance(v, SVal):
+            v = SVal(z3.simplify(v.t))
+        if isinstance(v, SVal) and z3.is_app(v.t) and \
+                v.t.decl().name().split('/')[0] in ('pytuple', 'pylist'):
+            # a tuple / list that was boxed into a value (e.g. yielded by an
+            # inlined generator): its components, exactly
+            kids = v.t.children()
+            if len(kids) != n:
+                it.raise_('ValueError', 'unpack arity', node=node)
+            out = []
+            for k in kids:
+                o = None
+                if z3.is_const(k) and k.decl().name().startswith('obj:'):
+                    o = ObjVal._by_ident.get(k.decl().name()[4:])
+                out.append(o if o is not None else SVal(k))
+            return out
         if isinstance(v, SVal):
             # an opaque value unpacks only if it is an iterable of n items;
             # modelled kinds: str (its characters); None / numbers raise
